@@ -1,6 +1,7 @@
 //! `dv pure`: histories of evaluations of prepared evaluators over persistent scopes.
 //! request {"scopes": [[ctx-text, …] …]  (each scope = a stack of contexts, bottom first),
 //!          "exprs": [text …], "seq": [[expr index, scope index] …]}
+//!          "shared": bool  (optional: one evaluator per expression, prepared against the scope of its first use and then evaluated over every scope of the sequence)
 //! answer  {"steps": [{"v": canon, "before": scope text, "after_parse": text, "after": scope text} …]} — evaluators are prepared once per (expr, scope).
 use crate::canon::{canon, panic_text};
 use dmntk_feel::{Evaluator, Scope};
@@ -27,17 +28,18 @@ fn one(req: &J) -> J {
   for st in req["seq"].as_array().cloned().unwrap_or_default() {
     let (ei, si) = (st[0].as_u64().unwrap_or(0) as usize, st[1].as_u64().unwrap_or(0) as usize);
     let scope = &scopes[si];
+    let key = if req["shared"].as_bool().unwrap_or(false) { (ei, usize::MAX) } else { (ei, si) };
     let before = scope.to_string();
     let mut after_parse = before.clone();
-    if !prepared.contains_key(&(ei, si)) {
+    if !prepared.contains_key(&key) {
       let ev = match dmntk_feel_parser::parse_expression(scope, &exprs[ei], false) {
         Ok(node) => dmntk_feel_evaluator::prepare(&node).ok(),
         Err(_) => None,
       };
       after_parse = scope.to_string();
-      prepared.insert((ei, si), ev);
+      prepared.insert(key, ev);
     }
-    match prepared.get(&(ei, si)).unwrap() {
+    match prepared.get(&key).unwrap() {
       Some(ev) => {
         let v = ev(scope);
         steps.push(json!({"v": canon(&v), "before": before, "after_parse": after_parse, "after": scope.to_string()}));
